@@ -223,9 +223,14 @@ def run(C, R):
                                 R.fail('C02.R4', [fn['path'], 'value-borrow'],
                                        'the protected cell is borrowed in %s' % fn['path'], F.loc(fn, s['ln']))
         # ---- R5: is_locked() returns the bit
-        isl = F.one_fn(impl_adt=STATE, name='is_locked')
-        paths = E.run(isl['path'])
-        R.add_paths(isl['path'], len(paths))
+        isls = [f for f in F.methods_of(STATE) if f.get('name') == 'is_locked']
+        if not isls:
+            R.observe('C02.R5: MutexState has no is_locked() getter of its own (inlined into the public method, which '
+                      'is judged below)')
+        isl = isls[0] if isls else None
+        paths = E.run(isl['path']) if isl else []
+        if isl:
+            R.add_paths(isl['path'], len(paths))
         for path in paths:
             if path.ret[0] == 'init' and loc_endswith(path.ret[1], 'is_locked') and not lock_writes(path):
                 R.ok('C02.R5', isl['path'])
